@@ -3,6 +3,7 @@ import json
 import random
 
 import e2e_engine as E2E
+import genproof
 import vf
 
 TRUSTED = [
@@ -41,7 +42,7 @@ def gen_case(rnd, tier):
     return dict(pl=pl, ops=ops, failed=failed, lines=lines)
 
 
-def run(rep, tier, seed, replay):
+def _run(rep, tier, seed, replay):
     rep.cov["trusted_base"] = TRUSTED
     rnd = random.Random(seed)
     if replay:
@@ -136,8 +137,28 @@ def run(rep, tier, seed, replay):
         if len(rep.violations) >= 5:
             break
     if not replay and len(rep.violations) < 5:
+        # the sender goroutine arrives late: a tick and a backlog of lines are both pending when it first runs
+        late = [(rnd.choice([16, 20, 55, 64, 100, 1400]), rnd.randint(6, 60), rnd.randint(5, 12)) for _ in range(40 if tier == "quick" else 2000)]
+        vf.write_lines(f"{d}/relaylate.cases", ["%d %d %d" % x for x in late])
+        for (pl, n, ll), o in zip(late, vf.run_hx("relaylate", f"{d}/relaylate.cases")):
+            rep.count(1)
+            f = dict(x.split("=", 1) for x in o.split()) if o.startswith("sizes=") else {}
+            sizes = [int(x) for x in f.get("sizes", "").split(",") if x]
+            if not f or any(x > pl for x in sizes) or f.get("complete") != "true":
+                rep.violation("with a tick and a backlog of lines pending when the sender first runs, a datagram exceeds the packet length, splits a line, or lines are lost / doubled",
+                              dict(packet_length=pl, lines=n, line_length=ll, observed=o,
+                                   how="harness/cmd/hx/relaylate.go: GOMAXPROCS(1), a tick pre-queued on the mock ticker, NewRelay, n RelayLine calls, then the sender runs"))
+                break
+        rep.extra["late_sender_runs"] = len(late)
+    if not replay and len(rep.violations) < 5:
         E2E.run_relay_latency(rep, "C17")
         rep.cov["rule"] += "; plus one real-time run of the built binary with --statsd.relay.address: 7 lines 300 ms apart, each must reach the sink within a second (the one-second tick)"
     rep.extra["disagreements_with_model"] = nbad
     rep.extra["with_send_failure"] = sum(1 for c in cases if c["failed"])
     rep.sample(dict(pl=cases[0]["pl"], ops=cases[0]["ops"][:8], impl=impl[0][:300]))
+
+
+def run(rep, tier, seed, replay):
+    _run(rep, tier, seed, replay)
+    if not replay:
+        genproof.clock_obligation(rep, "C17_clock.v", "the relay asks the clock for something other than its flush ticker, the only form of time in the relay model", ('pkg/relay.',))
